@@ -1056,7 +1056,61 @@ with call_value (fuel : nat) (fn : value) (name : str) (args : list (option str 
       match fn with
       | VBuiltin n =>
           match native_sig n with
-          | None => Err EUnsupported
+          | None =>
+              (* map(mapper:function, seq:list), filter(filter:function, seq:list), reduce(reducer:function, seq:list, initializer=None):
+                 the natives that call back into the interpreter *)
+              if str_eqb n (s "map") || str_eqb n (s "filter") || str_eqb n (s "reduce") then
+                let types := [T_func; T_list; 0%N] in
+                let nformal := if str_eqb n (s "reduce") then 3%nat else 2%nat in
+                if Nat.ltb nformal (length args) || existsb (fun a => match fst a with Some _ => true | None => false end) args then Err EUnsupported else
+                do '(vals, st1) <-
+                   (fix go (l : list (option str * expr)) (ts : list N) (st0 : state) : res (list value * state) :=
+                      match l, ts with
+                      | (_, e) :: r, t :: tr =>
+                          do '(v, st') <- eval_expr f e st0; do v' <- validate t None v;
+                          do '(vs, st'') <- go r tr st'; Ok (v' :: vs, st'')
+                      | _, _ => Ok ([], st0)
+                      end) args types st;
+                if Nat.ltb (length vals) 2 then Err EType else      (* Missing required argument *)
+                match nth 0%nat vals VNone with
+                | VFunc fid =>
+                    do l <- strict_list st1 (nth 1%nat vals VNone);
+                    let call1 (xs : list value) (st0 : state) :=
+                      let formals := f_args (nth fid (funcs st0) (Func [] [] [] 0%nat)) in
+                      if Nat.ltb (length formals) (length xs) then Err EType
+                      else run_func f fid (combine (map (@fst _ _) formals) xs) st0 in
+                    if str_eqb n (s "map") then
+                      do '(out, st2) <- mapM (fun x st0 => call1 [x] st0) l st1;
+                      Ok (new_list out st2)
+                    else if str_eqb n (s "filter") then
+                      do '(keep, st2) <- mapM (fun x st0 => do '(r, st') <- call1 [x] st0; Ok ((truthy d st' r, x), st')) l st1;
+                      let out := map (@snd _ _) (filter (@fst _ _) keep) in
+                      match out with
+                      | [] => match d with Asp => Ok (VNilList, st2) | Py => Ok (new_list [] st2) end   (* var ret pyList; nothing appended *)
+                      | _ =>
+                          (* append one element at a time from a nil slice: capacities 1, 2, 4, 8, 16 *)
+                          let n0 := length out in
+                          let cap := if Nat.leb n0 1 then 1%nat else if Nat.leb n0 2 then 2%nat else if Nat.leb n0 4 then 4%nat
+                                     else if Nat.leb n0 8 then 8%nat else 16%nat in
+                          if Nat.ltb 16 n0 then Err EUnsupported else
+                          let '(r, st3) := alloc_list out (match d with Asp => cap | Py => 0%nat end) st2 in Ok (VList r, st3)
+                      end
+                    else
+                      let init := nth 2%nat vals VNone in
+                      match l with
+                      | [] => Ok (init, st1)
+                      | x :: r =>
+                          let '(acc0, rest) := match init with VNone => (x, r) | _ => (init, l) end in
+                          (fix go (l0 : list value) (acc : value) (st0 : state) : res (value * state) :=
+                             match l0 with
+                             | [] => Ok (acc, st0)
+                             | y :: r0 => do '(acc', st') <- call1 [acc; y] st0; go r0 acc' st'
+                             end) rest acc0 st1
+                      end
+                | VBuiltin _ => Err EUnsupported
+                | _ => Err EType
+                end
+              else Err EUnsupported
           | Some (sg, varargs) =>
               (* callNative *)
               let slots := map (fun _ => @None value) sg in
@@ -1105,6 +1159,19 @@ with call_value (fuel : nat) (fn : value) (name : str) (args : list (option str 
                       do '(v, st') <- eval_expr f e st0; go r (S i) (env_set k v acc) st'
                     else Err EType
                 end) args 0%nat [] st;
+          run_func f id bound st1
+      | _ => Err EType      (* Non-callable object *)
+      end
+  end
+
+(* the second half of pyFunc.Call: defaults for the arguments not passed, then the body in a new scope whose
+   parent is the scope the function was defined in *)
+with run_func (fuel : nat) (id : nat) (bound : env) (st1 : state) {struct fuel} : res (value * state) :=
+  match fuel with
+  | O => OutOfFuel
+  | S f =>
+      let fd := nth id (funcs st1) (Func [] [] [] 0%nat) in
+      let formals := f_args fd in
           do '(full, st2) <-
              (fix go (l : list (str * fdefault)) (acc : env) (st0 : state) : res (env * state) :=
                 match l with
@@ -1129,8 +1196,6 @@ with call_value (fuel : nat) (fn : value) (name : str) (args : list (option str 
           | RRet v => Ok (v, st5)
           | _ => Ok (VNone, st5)
           end
-      | _ => Err EType      (* Non-callable object *)
-      end
   end
 
 with exec_block (fuel : nat) (ss : list stmt) (st : state) {struct fuel} : res (sres * state) :=
